@@ -695,30 +695,62 @@ struct Explorer
       for (size_t i = 0; i < run.steps.size(); ++i)
         for (int k = 0; k < run.steps[i].togglesBefore; ++k)
           before += (before.empty() ? "" : ",") + sysName(run.steps[i].nr);
+      // The tree of toggle vectors is walked depth-first, so the violating executions of a scenario are
+      // collected and the MINIMAL one (fewest toggles, then smallest positions) is reported at its end.
+      Cand c;
+      c.at = at;
+      c.kase = kase;
       if (residualKind(sc->kind))
       {
         ++r.counters[std::string("residual_outside_content_returned:") + kindName[sc->kind]];
-        // one deterministic example only: first bad interleaving of the canonical scenario
-        if (!residualNoted && sc->mode == 0 && sc->op == 0 && sc->start == 0 && sc->sub == 0 && sc->name == "sub/a.txt")
+        if (sc->mode == 0 && sc->op == 0 && sc->start == 0 && sc->sub == 0 && sc->name == "sub/a.txt")
         {
-          residualNoted = true;
-          r.notes.push_back(std::string("intermediate-component swap (outside the statement's final-component clause; "
-                                        "documented residual, assets.hpp l.35-38) returns outside content, e.g. ") +
-                            kase + " (toggle before " + before + "): " + v.detail);
+          c.detail = std::string("intermediate-component swap (outside the statement's final-component clause; documented "
+                                 "residual, assets.hpp l.35-38) returns outside content, minimal example: ") +
+                     kase + " (toggle before " + before + "): " + v.detail;
+          if (!haveNote || c.better(bestNote))
+            bestNote = c;
+          haveNote = true;
         }
       }
       else
       {
-        std::string sig = std::string("race:") + (sc->op == 0 ? "getStatic" : "getTemplate") + ":" + modeName[sc->mode] + ":" +
-                          kindName[sc->kind] + ":start=" + (sc->start ? "B" : "A") + ":toggle-before=" + before + ":to=" + v.where;
-        r.violation(v.clause, sig, kase, v.detail + " ; trace:" + traceText(e.t, run));
+        ++badRuns;
+        std::string last = before.empty() ? "none" : before.substr(before.rfind(',') == std::string::npos ? 0 : before.rfind(',') + 1);
+        c.clause = v.clause;
+        c.sig = std::string("race:") + (sc->op == 0 ? "getStatic" : "getTemplate") + ":" + modeName[sc->mode] + ":" +
+                kindName[sc->kind] + ":start=" + (sc->start ? "B" : "A") + ":toggles=" + std::to_string(run.togglesDone) +
+                ":last-toggle-before=" + last + (v.viaGzip ? ":gzip-sidecar" : "") + ":to=" + v.where;
+        c.detail = v.detail + " ; trace:" + traceText(e.t, run);
+        if (!haveBad || c.better(bestBad))
+          bestBad = c;
+        haveBad = true;
       }
     }
     return run;
   }
+  struct Cand
+  {
+    std::vector<int> at;
+    std::string clause, sig, kase, detail;
+    bool better(const Cand &o) const { return at.size() != o.at.size() ? at.size() < o.at.size() : at < o.at; }
+  };
   bool lastBad = false;
-  bool residualNoted = false;
+  bool haveBad = false, haveNote = false;
+  Cand bestBad, bestNote;
+  uint64_t badRuns = 0;
   std::string lastCase;
+  void flush()
+  {
+    if (haveBad)
+    {
+      r.violation(bestBad.clause, bestBad.sig, bestBad.kase, bestBad.detail);
+      if (badRuns > 1)
+        r.counters["further_violating_interleavings"] += badRuns - 1; // same scenario, less simple than the one reported
+    }
+    if (haveNote)
+      r.notes.push_back(bestNote.detail);
+  }
 
   // A step is independent of every toggle (commutes with it) if it cannot observe the toggled entry X:
   //  - read/close on an already open descriptor (a rename never changes an inode's content), or
@@ -870,7 +902,7 @@ bool exploreScenario(Env &e, vr::Report &r, const vr::Shard *sh, const Scenario 
     x.g.reset(0, e.depth); // benign
     Lookup l = x.fn();     // populate the cache in this (parent) process; children inherit it
     if (l.status != 'F')
-      r.violation("harness-internal", "warm-up-not-found", sc.text(), "benign warm-up lookup did not find the file");
+      ++r.counters["vacuous_warmup_refused"]; // refusal is always acceptable; only counted (0 = non-vacuous)
   }
   if (only)
   {
@@ -881,7 +913,7 @@ bool exploreScenario(Env &e, vr::Report &r, const vr::Shard *sh, const Scenario 
   {
     Run base = x.one({}, true);
     if (sc.start == 0 && base.res.status != 'F')
-      r.violation("harness-internal", "baseline-not-found", sc.text(), "benign baseline lookup did not find the file (vacuous scenario)");
+      ++r.counters["vacuous_benign_baseline_refused"]; // refusal is always acceptable; only counted (0 = non-vacuous)
     if (r.samples.size() < r.max_samples && sc.kind == LEAF_TARGET && sc.start == 0 && sc.name == "sub/a.txt")
     {
       Run logged = x.one({}, true);
@@ -891,6 +923,7 @@ bool exploreScenario(Env &e, vr::Report &r, const vr::Shard *sh, const Scenario 
     std::vector<char> dep;
     x.rec(at, dep, base);
   }
+  x.flush();
   x.g.restoreOriginal(e.depth);
   if (sc.mode == 1)
     e.warm->reload();
